@@ -43,10 +43,12 @@ def main():
             sh("git -C %s checkout -- ." % REPO)
         viol = [l for l in r.stdout.splitlines() if l.startswith("VIOLATION")]
         what = [l.strip() for l in r.stdout.splitlines() if l.strip().startswith("what:")]
-        results[i] = {"property": prop, "applies": True, "repo_head": head, "exit": r.returncode, "detected": r.returncode == 1 and bool(viol),
+        mode = os.environ.get("VERIF_ONLY", "full")
+        key = i if mode == "full" else "%s@%s" % (i, mode)
+        results[key] = {"property": prop, "applies": True, "repo_head": head, "exit": r.returncode, "detected": r.returncode == 1 and bool(viol),
                       "violations": len(viol), "first": (what[0][:300] if what else ""), "wall_s": round(time.time() - t0, 1),
                       "mode": os.environ.get("VERIF_ONLY", "full")}
-        print(i, "detected" if results[i]["detected"] else "MISSED (exit %d)" % r.returncode, "-", results[i]["first"][:150])
+        print(key, "detected" if results[key]["detected"] else "MISSED (exit %d)" % r.returncode, "-", results[key]["first"][:150])
         json.dump(results, open(res_path, "w"), indent=1, sort_keys=True)
     json.dump(results, open(res_path, "w"), indent=1, sort_keys=True)
     return 0
